@@ -350,6 +350,9 @@ package bitcoin_reader
 //@ func removeID
 //@   ensures [C06.remove-id] old(distinctIDs(ids)) ==> !inIDs(result, newID) && distinctIDs(result)
 //@   ensures [C06.remove-id-subset] forall(i, 0, len(result), exists(j, 0, len(ids), old(ids[j]) == result[i])) && len(result) <= len(ids)
+// Every other announcer stays listed: at most one entry goes, and none when the id is not listed. Together with
+// remove-id (result duplicate-free, id gone) and remove-id-subset this pins the result to ids without newID.
+//@   ensures [C06.remove-id-keeps-others] len(result) >= len(ids) - 1 && (!old(inIDs(ids, newID)) ==> len(result) == len(ids))
 //@   ensures arr(result) == arr(ids)
 //@   modifies elems(ids)
 //@   loop 1
